@@ -348,6 +348,11 @@ def b_len(ex, st, args, kwargs, n):
     return _len0(ex, st, args, kwargs, n)
 
 
+@L.register('builtins.iter', pure=True)
+def b_iter(ex, st, args, kwargs, n):
+    return args[0]
+
+
 _type0 = L.ext.get('builtins.type')
 
 
@@ -358,7 +363,7 @@ def b_type(ex, st, args, kwargs, n):
     return _type0(ex, st, args, kwargs, n)
 
 
-_OWN = {k_: L.ext[k_] for k_ in ['cvxopt.modeling._ismatrix', 'cvxopt.modeling._isdmatrix', 'cvxopt.modeling._isspmatrix', 'cvxopt.modeling._isscalar', 'cvxopt.modeling.matrix', 'builtins.len', 'builtins.type']}
+_OWN = {k_: L.ext[k_] for k_ in ['cvxopt.modeling._ismatrix', 'cvxopt.modeling._isdmatrix', 'cvxopt.modeling._isspmatrix', 'cvxopt.modeling._isscalar', 'cvxopt.modeling.matrix', 'builtins.len', 'builtins.type', 'builtins.iter']}
 
 
 def install():
@@ -539,3 +544,136 @@ FUNCS = {'_lin._addterm': {
                   'merge-scalar': {'present': True, 'a': 'scalar'},
                   'merge-matrix': {'present': True, 'a': 'matrix'}},
     'on_outcomes': on_outcomes, 'config': {'unroll': 8}}}
+
+
+# ------------------------------------------------------------ _lin.__len__
+# len(f) of a linear function is the common length L of its terms: every
+# coefficient has effective length 1 or L (representation invariant), and if
+# L > 1 some coefficient has effective length L.  Contract: __len__ returns L.
+RK = z3.Function('rows_of_entry', z3.IntSort(), z3.IntSort())
+CK = z3.Function('cols_of_entry', z3.IntSort(), z3.IntSort())
+NK = z3.Function('len_of_variable', z3.IntSort(), z3.IntSort())
+DK = z3.Function('dense_entry', z3.IntSort(), z3.BoolSort())
+
+
+def efflen(k):
+    return z3.If(RK(k) > 1, RK(k), z3.If(z3.And(RK(k) == 1, CK(k) == 1, DK(k),
+                                                NK(k) > 1), NK(k), 1))
+
+
+def legal_entry(k, Lg):
+    r, c, n = RK(k), CK(k), NK(k)
+    return z3.And(n >= 1, z3.Or(
+        z3.And(r == Lg, c == n), z3.And(r == 1, c == n),
+        z3.And(r == 1, c == 1, DK(k), z3.Or(n == 1, Lg == n))))
+
+
+class EntrySeq:
+    """self._coeff.items() of a _lin: a sequence of (variable, coefficient)
+    pairs of symbolic length; the loop body is executed for an arbitrary
+    entry; an entry that falls through must have effective length 1, and at
+    the exit every entry (in particular the witness of L > 1) fell through"""
+    def __init__(self, Lg, N, kw):
+        self.Lg, self.N, self.kw = Lg, N, kw
+
+    def abs_method(self, ex, st, name, args, kwargs, n):
+        if name == 'items':
+            return self
+        raise Unsupported('dict.%s' % name)
+
+    def abs_getattr(self, ex, st, attr, n):
+        return core.NOTFOUND
+
+    def abs_truth(self, ex, st):
+        return self.N > 0
+
+    def abs_loop(self, ex, st, s, fid):
+        k = z3.Int(ex.fresh('k'))
+        b = st.copy()
+        b.pc += [k >= 0, k < self.N, legal_entry(k, self.Lg),
+                 z3.Or(efflen(k) == 1, efflen(k) == self.Lg)]
+        v = VarObj(NK(k))
+        c = new_symmat(ex, b, RK(k), CK(k), lambda R_, j_: z3.RealVal(0),
+                       DK(k), 'entry k')
+        ex.assign(b, fid, s.target, (v, c), s)
+        outs = []
+
+        class N_:
+            lineno = s.lineno
+            col_offset = 0
+        for o in ex.exec_block(s.body, b, fid):
+            if o.kind in ('fall', 'continue'):
+                ex.oblige(o.st, 'len-value', efflen(k) == 1, N_(),
+                          '__len__ passes over a term only if it carries no '
+                          'length information (effective length 1)',
+                          extra={'prop': 'C11'})
+                ex.orphans = getattr(ex, 'orphans', [])
+                ex.orphans.extend(o.st.obligs)
+            elif o.kind == 'break':
+                raise Unsupported('break in __len__')
+            else:
+                outs.append(o)
+        e = st.copy()
+        # exhaustion: every entry fell through, in particular the witness
+        e.pc.append(z3.Implies(z3.And(self.kw >= 0, self.kw < self.N),
+                               efflen(self.kw) == 1))
+        outs.append(core.Outcome('fall', e))
+        return outs
+
+
+def len_setup(sc):
+    def setup(ex, st, fid, fn):
+        install()
+        fr = st.frames[fid]
+        Lg, N, kw = z3.Int('L'), z3.Int('number of terms'), z3.Int('witness')
+        st.pc += [Lg >= 1, N >= 0,
+                  z3.Implies(Lg > 1, z3.And(kw >= 0, kw < N,
+                                            efflen(kw) == Lg,
+                                            legal_entry(kw, Lg)))]
+        seq = EntrySeq(Lg, N, kw)
+
+        class Me:
+            abs_object = True
+
+            def abs_getattr(self_, ex_, st_, attr, n):
+                if attr == '_coeff':
+                    return seq
+                return core.NOTFOUND
+        fr['self'] = Me()
+        st.ghost['L'] = Lg
+        st.ghost['frame_check'] = False
+    return setup
+
+
+def len_outcomes(ex, outs):
+    class N:
+        lineno = 0
+        col_offset = 0
+    nret = 0
+    for o in outs:
+        st = o.st
+        if o.kind == 'raise':
+            ex.oblige(st, 'len-value', z3.BoolVal(False), N(),
+                      '__len__ raises no exception (%s)' % (o.val[0],),
+                      extra={'prop': 'C11'})
+            continue
+        nret += 1
+        v = o.val
+        t = v.t if isinstance(v, I) else (z3.IntVal(v) if isinstance(
+            v, int) and not isinstance(v, bool) else None)
+        ex.oblige(st, 'len-value', t == st.ghost['L'] if t is not None else
+                  z3.BoolVal(False), N(),
+                  'len(f) of a linear function is the common length of its '
+                  'terms (the first coefficient with more than one row, or a '
+                  'scalar coefficient of a vector variable, decides; 1 if '
+                  'there is none)', extra={'prop': 'C11'})
+    if outs:
+        ex.oblige(outs[0].st, 'covered', z3.BoolVal(nret >= 3), N(),
+                  'the three ways of returning are reached (%d)' % nret,
+                  extra={'prop': 'C11'})
+    return {'paths': len(outs)}
+
+
+FUNCS['_lin.__len__'] = {'setup': len_setup, 'scenarios': {'any': {}},
+                         'on_outcomes': len_outcomes,
+                         'config': {'unroll': 8}}
